@@ -416,6 +416,12 @@ def streams(ctx):
     all_b2 = [b""] + [bytes([a]) for a in range(256)] + [bytes([a, b]) for a in range(256) for b in range(256)]
     out.append(Stream("bytes-exhaustive-len<=2", [f"reprb {hexs(b)}" for b in all_b2], kind="exhaustive",
                       exhaustive=True, note="ALL byte strings of <= 2 bytes", nontrivial=nonempty))
+    qm_t = list(_texts(["'", '"', "\\", "a"], 5))
+    qm_b = [t.encode() for t in qm_t]
+    out.append(Stream("quote-mixtures-len<=5", [rs(s) for s in qm_t] + [f"reprb {hexs(b)}" for b in qm_b],
+                      kind="exhaustive", exhaustive=True,
+                      note="all texts and byte strings of <= 5 symbols over {', \", backslash, a}: every count "
+                           "combination choose_quote distinguishes", nontrivial=nonempty))
     reqs = []
     small_t = list(_texts(SMALL, 2 if ctx.quick else 3))
     small_b = [b""] + [bytes([a]) for a in range(256)] + [bytes(t) for t in itertools.product(
@@ -434,9 +440,8 @@ def streams(ctx):
                           exhaustive=True, note="all 3-character texts over 16 class representatives",
                           nontrivial=nonempty))
 
-    # 3. single characters: every table boundary, Latin-1 .. U+07FF; thorough: every scalar value of the BMP and a
-    #    stride over the astral planes
-    cps = set(range(0, 0x800))
+    # 3. single characters: the whole BMP and every boundary of the real table; thorough: every scalar value
+    cps = set(range(0, 0x10000))
     prev = 0
     for cp in range(128, 0x110000):
         if tab[cp] != prev:
@@ -444,17 +449,16 @@ def streams(ctx):
             prev = tab[cp]
     cps.update((0xFFFF, 0x10000, 0x10FFFF, 0xD7FF, 0xE000))
     if not ctx.quick:
-        cps.update(range(0, 0x10000))
-        cps.update(range(0x10000, 0x110000, 7))
+        cps.update(range(0, 0x110000))
     cps = sorted(c for c in cps if not 0xD800 <= c <= 0xDFFF)
     reqs = []
     for cp in cps:
         reqs.append(rs(chr(cp)))
-    for cp in cps[::5]:
+    for cp in cps[::5 if ctx.quick else 23]:
         reqs.append(rs("'" + chr(cp)))
     out.append(Stream("single-characters", reqs, kind="exhaustive", exhaustive=False,
-                      note="one-character texts: U+0000..U+07FF, both sides of every boundary of the real printability "
-                           "table, plane boundaries (thorough: the whole BMP and every 7th astral scalar value)",
+                      note="one-character texts: the whole BMP, both sides of every boundary of the real printability "
+                           "table, plane boundaries (thorough: EVERY scalar value)",
                       nontrivial=nonempty))
 
     # 4. the printability table itself against CPython (implementation judged by the oracle only)
@@ -466,7 +470,7 @@ def streams(ctx):
 
     # 5. random longer
     rng = ctx.rng("random")
-    n = 4000 if ctx.quick else 120000
+    n = 30000 if ctx.quick else 250000
     reqs = []
     rtexts, rbytes = [], []
     for i in range(n):
